@@ -10,6 +10,7 @@ import (
 	"errors"
 	"fmt"
 	"io"
+	"math"
 	"math/rand"
 	"net"
 	"net/http"
@@ -58,9 +59,13 @@ type world struct {
 	deltas    map[int]bool
 	rm        map[string]bool
 	shutdowns []string
+	capShift  int // which of probeCapacities the first probe device gets
 }
 
-const probeCapacity = 1000000
+// probeCapacities: structurally valid authorizations at extreme field values.
+// The probe devices report small power outputs, which every capacity admits;
+// products of the capacity with a percentage or a duration only fit 128 bits.
+var probeCapacities = []uint64{1000000, math.MaxUint64/135 + 2, math.MaxUint64, 1 << 63, math.MaxUint64/100 + 7, math.MaxUint64/4032 + 3}
 
 // initialClock is the protocol time at which newWorld starts its server: a
 // value ≥ 4000 makes the very first start catch up through device-less weeks.
@@ -94,6 +99,7 @@ func newWorld(b run.Batch, r *ev.Result, rng *rand.Rand, name string) (*world, e
 	}
 	w.U = &drv.Dev{ID: 300 + uint32(rng.Intn(50)), Key: refenc.GenKey(rng)}
 	w.GCAk, w.keys.Temp, w.Server = dw.GCA, dw.Temp, dw.Key
+	w.capShift = int(b.Seed+int64(b.Index)) & 0xffff
 	for i := 0; i < 3; i++ {
 		if err := w.addProbe(); err != nil {
 			return w, err
@@ -105,7 +111,11 @@ func newWorld(b run.Batch, r *ev.Result, rng *rand.Rand, name string) (*world, e
 func (w *world) newID() uint32 { w.nextID++; return w.nextID }
 
 func (w *world) addProbe() error {
-	p, err := w.AddDevice(1000+uint32(len(w.probes)), probeCapacity)
+	capacity := probeCapacities[(len(w.probes)+w.capShift)%len(probeCapacities)]
+	if capacity != probeCapacities[0] {
+		w.r.Count("probe.devices_with_extreme_capacity", 1)
+	}
+	p, err := w.AddDevice(1000+uint32(len(w.probes)), capacity)
 	if err != nil {
 		return err
 	}
